@@ -1,4 +1,4 @@
 From Coq Require Import ExtrOcamlBasic NArith.
-From LLRP Require Import Discover.Subnet.
+From LLRP Require Import Discover.Subnet Discover.Entries.
 Extraction Language OCaml.
-Extraction "model.ml" ip_gen ip_gen_raw ip_gen_nth ip_gen_count compute_net_sz discover_all estimate net_id bcast N.of_nat N.to_nat.
+Extraction "model.ml" ip_gen ip_gen_raw ip_gen_nth ip_gen_count compute_net_sz discover_all estimate estimate_entries discover_entries net_id bcast N.of_nat N.to_nat.
